@@ -51,6 +51,15 @@ CLAIMS = {
  "C15": ("model_checking", "5 C15", "hist",
          "Same history space as C14 judged by the contract model (error code = code of the most recent failing call, messages non-empty, previous values of setters, defaults, clamping), plus all setter argument sequences of length <= 3 over 7 extreme values and token validation over 7 code layouts x all codes in/around the declared range x 3 positions, plus the NULL-allocator rule.",
          "explicit-state exploration of API call histories + exhaustive argument/code enumeration on the real code (engine hist)"),
+ "C16": ("model_checking", "5 C16", "gram",
+         "Every engine is built over the C functions and over class yaep with the separately written C++ containers; both run identical deterministic case spaces (grammar families incl. recovery and cost pruning, callback-level descriptions, description texts and mutants, API histories with yaep::free_tree) and emit per-group digests of all observations (codes, messages, callbacks, flags, denoted trees, allocation/free counts) that must agree group by group; the C++ runs are judged by the same reference oracles and also run under ASan.",
+         "bounded exhaustive enumeration executed through both bindings, group-wise comparison of observation digests (all engines)"),
+ "C17": ("fault_enumeration", "5 C17", "fault",
+         "For 20 scenarios (create, definitions, parses over the main modes) and every k up to the number of allocation requests of the fault-free run, exactly request k fails (hook in allocate.c): NULL / YAEP_NO_MEMORY, error code, no sanitizer report or exit, object freeable, bystander object intact. 446 of 790 single faults behave as stated; the other 344 are two recorded findings (D15, D34), listed case by case so that any other failing (scenario,k) is reported.",
+         "exhaustive single-fault enumeration over every allocation request of each scenario on the real code (engine fault, YAEP_VERIF hook)"),
+ "C18": ("exploration", "5 C18", "scale",
+         "The complete finite grid of 4 deterministic left-recursive grammar/input families x lengths 1000*2^j (j<=5 quick, j<=9 = 512k tokens thorough) x lookahead 0..2, measured in machine-independent units (allocator bytes/requests via hook, hash searches/collisions, set statistics) against frozen doubling-ratio limits, per-token caps, constant set cores and a minimum share of goto-cache hits. Exhaustive over the grid only; no asymptotic claim; ANSI C on test.i not included.",
+         "exhaustive measurement over a finite grid of input lengths with calibrated growth limits (engine scale)"),
  "C19": ("model_checking", "5 C19", "cont",
          "Explicit-state BFS over operation histories of the real hash table (fixpoint under a slot cap, 4 hash functions incl. constant), object stack and VLO (depth-bounded, tiny segment sizes, realloc moving / shrinking in place) for the C and the C++ implementations, against std::set / byte-string models after every operation, under ASan.",
          "explicit-state exploration of container operation histories on the real code with canonical-layout deduplication (engine cont)"),
@@ -83,15 +92,17 @@ except Exception:
     pass
 m = {
     "version": 1,
-    "setup_cmd": "bin/vcheck build c cxx c-asan cxx-asan cont-c cont-cxx",
+    "setup_cmd": "bin/vcheck build c cxx c-asan cxx-asan cont-c cont-cxx c-perf",
     "hooks": {"guard": "YAEP_VERIF", "enable": "checks compile /repo/src with -DYAEP_VERIF (bin/vcheck build)",
               "baseline_off_cmd": "bin/baseline_off.sh", "source_commits": hooks_commits, "add_only": True},
     "engines": [
+        {"name": "fault", "path": "harness/eng_fault.cc", "serves_properties": ["C17"], "kind_free_text": "single allocation fault enumeration (every request index of every scenario) through the YAEP_VERIF hook in allocate.c, one forked child per fault"},
+        {"name": "scale", "path": "harness/eng_scale.cc", "serves_properties": ["C18"], "kind_free_text": "work measurement over a finite grid of input lengths in machine-independent units"},
         {"name": "txt", "path": "harness/eng_txt.cc", "serves_properties": ["C11", "C12"], "kind_free_text": "enumeration of description texts (printed grammars x lexical variations, 1-edit mutants, short byte strings) judged by a three-valued reference reader and the callback-defined twin"},
         {"name": "def", "path": "harness/eng_def.cc", "serves_properties": ["C10", "C12"], "kind_free_text": "product enumeration of callback-level grammar descriptions, reference well-formedness model"},
         {"name": "hist", "path": "harness/eng_hist.cc", "serves_properties": ["C14", "C15"], "kind_free_text": "exploration of API call histories, one pristine forked process per history, fresh-object differential, dedup on model state + file-scope fingerprint (hook) + live blocks (hook)"},
         {"name": "cont", "path": "harness/eng_cont.cc", "serves_properties": ["C19"], "kind_free_text": "explicit-state BFS over container operation histories (C and C++), canonical layout states, harness allocator with explored realloc behaviour"},
-        {"name": "gram", "path": "harness/eng_gram.cc", "serves_properties": ["C01", "C02", "C03", "C04", "C05", "C06", "C07", "C08", "C09", "C13"],
+        {"name": "gram", "path": "harness/eng_gram.cc", "serves_properties": ["C01", "C02", "C03", "C04", "C05", "C06", "C07", "C08", "C09", "C12", "C13", "C16"],
          "kind_free_text": "explicit enumeration of bounded grammar families x inputs x flag vectors on the real library, reference-model oracle, fork-contained batches with bisection and replay-before-report"},
     ],
     "checks": checks,
